@@ -147,7 +147,7 @@ func monC11(c *drv.Ctx) {
 		bl := orig.BLength()
 		cn := san.NewCanary(bl, bl, func(int) byte { return 0xCC })
 		n1 := orig.FastWrite(cn.Buf())
-		buf2 := make([]byte, bl)
+		buf2 := dirty(bl)
 		n2 := orig.FastWriteNocopy(buf2, nil)
 		if n1 != bl || n2 != bl {
 			fail("blength-vs-written", "BLength %d, FastWrite %d, FastWriteNocopy(nil) %d", bl, n1, n2)
@@ -248,9 +248,9 @@ func monC11(c *drv.Ctx) {
 			cs.Fail(check, M{"struct": "BaseResp"}, M{"value": fmt.Sprintf("%.300q", fmt.Sprint(orig)), "message": fmt.Sprintf(msg, a...)})
 		}
 		bl := orig.BLength()
-		wire := make([]byte, bl)
+		wire := dirty(bl)
 		n1 := orig.FastWrite(wire)
-		buf2 := make([]byte, bl)
+		buf2 := dirty(bl)
 		n2 := orig.FastWriteNocopy(buf2, nil)
 		if n1 != bl || n2 != bl {
 			fail("blength-vs-written", "BLength %d, FastWrite %d, FastWriteNocopy(nil) %d", bl, n1, n2)
@@ -326,9 +326,9 @@ func monC11(c *drv.Ctx) {
 			cs.Fail(check, M{"struct": "ApplicationException"}, M{"type_id": tid, "msg_len": len(msg), "message": fmt.Sprintf(m, a...)})
 		}
 		bl := orig.BLength()
-		wire := make([]byte, bl)
+		wire := dirty(bl)
 		n1 := orig.FastWrite(wire)
-		buf2 := make([]byte, bl)
+		buf2 := dirty(bl)
 		n2 := orig.FastWriteNocopy(buf2, nil)
 		known := []kfield{{1, ref.STRING, ref.EncString(nil, msg)}, {2, ref.I32, ref.EncI32(nil, tid)}}
 		want, _ := buildStruct(r, known, 0, false)
@@ -387,7 +387,7 @@ func monC11(c *drv.Ctx) {
 				}
 			}
 			bl := codec.BLength()
-			wire := make([]byte, bl)
+			wire := dirty(bl)
 			wn := codec.FastWriteNocopy(wire, nil)
 			rn, err, got := dec(wire)
 			if wn != bl || err != nil || rn != bl || !strMapEq(got, extra) {
